@@ -20,7 +20,7 @@ func init() {
 			`R02.6 index-space consistency: no integer flows both into a use as an index of the new build's file list and into a use as an index of the old build's (bowl, patcher, rediff, diff); R02.7 in the bowl, every MkdirAll of a path derived from a tlc.Dir entry is preceded on every path by Lstat of the same path. ` +
 			`R03.6 (shared) an append to the overlay bowl's work lists is protected by a completed search of the list itself. ` +
 			`R14.7 (shared) each field that OverlayPatchContext.Patch assigns is assigned before it is first read or is zero again on every success return (the bowl applies all overlays of a commit with one context). ` +
-			`R02.9 (shared with C01) where a method of the overlay bowl creates a file (O_CREATE) every path to the open removes what stands at that path first. R14.5 (shared) the old-file window of the overlay writer is inspected only below the count read. NOT decided: that the commit result equals the new build, independence from map iteration order in applyTranspositions, kind changes (old non-empty directory -> new file).`,
+			`R02.9 (shared with C01) where a method of the overlay bowl creates a file (O_CREATE) every path to the open removes what stands at that path first. R14.5 (shared) the old-file window of the overlay writer is inspected only below the count read. R04.7 (shared) the overlay bowl's path-keyed maps (target files by path, transpositions, ghosts) are keyed by a one-to-one image of the entry's Path. R14.9 (shared) every path to NewOverlayWriter(r, readOffset, ...) passes a Seek(readOffset, SeekStart) on r. NOT decided: that the commit result equals the new build, independence from map iteration order in applyTranspositions, kind changes (old non-empty directory -> new file).`,
 		Assumptions: []string{
 			"file-system mutators are the screw/os functions OpenFile(with write flags)/Create/Remove/RemoveAll/Rename/Mkdir/MkdirAll/Symlink/Truncate/Chmod/WriteFile, FsPool.GetWriter and Container.Prepare",
 			"index spaces are recognised from the repository's naming convention: containers/fields whose name contains 'source' denote the new build, 'target' the old build",
@@ -210,8 +210,10 @@ func runC02(c *core.Ctx) {
 	c.Rule("R02.6", "index-space consistency")
 	ruleWorkListDedup(c)
 	ruleCommitWritersReplace(c)
+	rulePathKeysAreOneToOne(c, "R04.7", 10, func(fn *ssa.Function) bool { return strings.HasSuffix(core.PkgPathOf(fn), "/pwr/bowl") })
 	ruleWindowInspectedBelowCount(c)
 	ruleUseStartsClean(c, "R14.7", "pwr/overlay", "OverlayPatchContext", "Patch")
+	ruleOverlayReaderStandsWhereTold(c, "R14.9", 1)
 	c.Rule("R02.7", "directories are made after a no-follow look")
 	g := c.P.CallGraph(c.Tier == "thorough")
 	reachFrom := func(roots []*ssa.Function) map[*ssa.Function]bool {
